@@ -547,3 +547,133 @@ var _ = types.Identical
 func init() {
 	register(ruleErrSites, ruleErrClass, ruleGate, ruleHard)
 }
+
+// --- R-VERBOSEUSE: the suppression flag decides only how a failure is reported ---------------------
+
+var ruleVerboseUse = &Rule{
+	Name: "R-VERBOSEUSE", NeedSSA: true,
+	Doc: "the suppression flag is read only (a) to be saved and restored, (b) by the entry points' post-processing, or (c) by a branch from which every reachable return reports failure (status failed / outcome unknown): it decides how a failure is reported, never what is evaluated, so a run that succeeds returns the same result with and without WithSilent",
+	Run: func(p *Prog) *RuleOut {
+		out := newOut("R-VERBOSEUSE")
+		vf := p.A.VerboseField
+		entry := map[*ssa.Function]bool{}
+		for _, n := range p.A.EntryOrder {
+			entry[p.ssaOf(p.A.Entry[n])] = true
+		}
+		failedK, unknownK := constOf(p.A.StatusFailed), constOf(p.A.PredUnknown)
+		n := 0
+		ord := ordinals{}
+		var fns []*ssa.Function
+		for fn := range p.AllFns {
+			if fnPkgPath(fn) == pkgExec && fn.Blocks != nil {
+				fns = append(fns, fn)
+			}
+		}
+		sortFuncs(fns)
+		for _, fn := range fns {
+			for _, b := range fn.Blocks {
+				for _, ins := range b.Instrs {
+					u, ok := ins.(*ssa.UnOp)
+					if !ok || u.Op != token.MUL {
+						continue
+					}
+					if f, _ := p.execFieldOf(u.X); f != vf {
+						continue
+					}
+					n++
+					key := fmt.Sprintf("%s reads the suppression flag #%d", fnName(fn), ord.next(fnName(fn)))
+					if entry[fn] {
+						out.ok(key, p.pos(u.Pos()), fnName(fn), "entry point post-processing")
+						continue
+					}
+					// every use: a store that saves it, or a branch condition
+					bad := ""
+					var branches []*ssa.BasicBlock
+					var follow func(v ssa.Value, depth int)
+					follow = func(v ssa.Value, depth int) {
+						if depth > 5 || bad != "" {
+							return
+						}
+						for _, r := range *v.Referrers() {
+							switch x := r.(type) {
+							case *ssa.If:
+								branches = append(branches, x.Block())
+							case *ssa.UnOp:
+								if x.Op == token.NOT {
+									follow(x, depth+1)
+								} else {
+									bad = "used in " + x.String()
+								}
+							case *ssa.Phi:
+								follow(x, depth+1)
+							case *ssa.Store:
+								// a save: into a local cell, or (restore) back into the field
+							case *ssa.Defer, *ssa.MakeClosure:
+								// handed to the deferred restorer
+							case *ssa.Call:
+								if x.Call.StaticCallee() != nil && inModule(x.Call.StaticCallee()) {
+									// handed to a restorer method: judged by R-STATE-VERBOSE
+									continue
+								}
+								bad = "passed to " + calleeName(&x.Call)
+							case *ssa.DebugRef:
+							default:
+								bad = fmt.Sprintf("used by %T", r)
+							}
+						}
+					}
+					follow(u, 0)
+					if bad != "" {
+						out.viol(key, p.pos(u.Pos()), fnName(fn), "the suppression flag flows into the computation ("+bad+")")
+						continue
+					}
+					kind := p.pairKind(fn.Signature)
+					okAll := true
+					why := ""
+					for _, bb := range branches {
+						seen := map[*ssa.BasicBlock]bool{}
+						var walk func(x *ssa.BasicBlock)
+						walk = func(x *ssa.BasicBlock) {
+							if seen[x] || !okAll {
+								return
+							}
+							seen[x] = true
+							if r, ok := x.Instrs[len(x.Instrs)-1].(*ssa.Return); ok && x != fn.Recover {
+								good := false
+								if len(r.Results) > 0 {
+									if k, isC := constInt(stripConv(unspill(x, r, r.Results[0]))); isC {
+										good = (kind == "status" && k == failedK) || (kind == "pred" && k == unknownK)
+									}
+								}
+								if !good {
+									okAll = false
+									why = "return at " + p.pos(r.Pos()) + " is reachable from the branch on the flag and does not report a failure"
+								}
+							}
+							for _, s := range x.Succs {
+								walk(s)
+							}
+						}
+						for _, s := range bb.Succs {
+							walk(s)
+						}
+					}
+					if okAll {
+						if len(branches) == 0 {
+							out.ok(key, p.pos(u.Pos()), fnName(fn), "saved for a later restore")
+						} else {
+							out.ok(key, p.pos(u.Pos()), fnName(fn), "every return reachable from the branch reports a failure: the flag only chooses between (failed, err) and (failed, nil)")
+						}
+					} else {
+						out.viol(key, p.pos(u.Pos()), fnName(fn), "evaluation depends on whether errors are suppressed: "+why+"; a run that succeeds can return different results with and without WithSilent")
+					}
+				}
+			}
+		}
+		out.Counts["reads_of_the_suppression_flag"] = n
+		out.Floors["reads_of_the_suppression_flag"] = 4
+		return out
+	},
+}
+
+func init() { register(ruleVerboseUse) }
